@@ -486,6 +486,18 @@ def _default_table(ctx, fi):
             vals.append((n, n.ast.value))
         elif n.kind == "stmt" and isinstance(n.ast, ast.Assign) and isinstance(n.ast.targets[0], ast.Subscript) and isinstance(n.ast.value, ast.Attribute) and n.ast.value.attr == "default":
             vals.append((n, n.ast.value))
+    # stores / returns of a conditional expression on accepts_value(): one entry per arm
+    for n in cfg.nodes:
+        a = n.ast
+        v = None
+        if n.kind == "stmt" and isinstance(a, ast.Assign) and isinstance(a.value, ast.IfExp):
+            v = a.value
+        elif n.kind == "return" and isinstance(getattr(a, "value", None), ast.IfExp):
+            v = a.value
+        if v is not None and isinstance(v.test, ast.Call) and isinstance(v.test.func, ast.Attribute) and v.test.func.attr == "accepts_value":
+            for pol_, arm in ((True, v.body), (False, v.orelse)):
+                out.add((pol_, "<decl>.default" if (isinstance(arm, ast.Attribute) and arm.attr == "default") else norm(arm)))
+    vals = [(n, v) for n, v in vals if not isinstance(v, ast.IfExp)]
     for n, v in vals:
         pol = None
         for c in acc:
